@@ -7,9 +7,10 @@ admitted by a precondition (parse + exact round trip on the tree under test).
 """
 
 CMD_NAMES = ['foo', 'bar', 'textit', 'emph', 'x', 'cite', 'ref', 'qq']
-ENV_NAMES = ['e', 'env', 'center', 'quote', 'tabular', 'document', 'e']
-MATH_ENVS = ['equation', 'align', 'align*', 'equation*', 'gather', 'math']
-VERB_ENVS = ['verbatim', 'lstlisting', 'Verbatim']
+ENV_NAMES = ['e', 'env', 'center', 'quote', 'tabular', 'document', 'e', 'figure*', 'e']
+MATH_ENVS = ['equation', 'align', 'align*', 'equation*', 'gather', 'math', 'alignat', 'array', 'displaymath',
+             'eqnarray', 'eqnarray*', 'flalign', 'flalign*', 'gather*', 'multline', 'multline*', 'split']
+VERB_ENVS = ['verbatim', 'lstlisting', 'Verbatim', 'verbatimtab', 'listing']
 LIST_ENVS = ['itemize', 'enumerate', 'description']
 WORDS = ['a', 'b', 'hello', 'world', 'x', 'y', 'lorem', 'ipsum', '12', 'z',
          'Tex', 'Soup', 'ab', 'q']
